@@ -49,15 +49,15 @@ import (
 var freshUsers = []*wallet.KeyPair{g.User6, g.User7, g.User8, g.User9, g.User10}
 
 type depBlock struct {
-	kind                          string
-	hash                          types.Hash
-	addr                          types.Address
-	ack                           types.HashHeight
-	builtAt                       uint64 // producer's frontier height when the block was created
-	changed                       uint64 // height of the momentum whose content changed what the block reads
-	other                         uint64 // height of the momentum whose ledger would NOT take the block
-	fused, availAck, availOther   uint64
-	incl, pos                     int // chain index of the momentum that contains it; blocks executed before it there
+	kind                        string
+	hash                        types.Hash
+	addr                        types.Address
+	ack                         types.HashHeight
+	builtAt                     uint64 // producer's frontier height when the block was created
+	changed                     uint64 // height of the momentum whose content changed what the block reads
+	other                       uint64 // height of the momentum whose ledger would NOT take the block
+	fused, availAck, availOther uint64
+	incl, pos                   int // chain index of the momentum that contains it; blocks executed before it there
 }
 
 func (d *depBlock) describe() M {
@@ -85,23 +85,28 @@ func (p *depProbe) describe() M {
 
 type depPlan struct {
 	blocks    map[types.Hash]*depBlock
-	order     []*depBlock
 	probes    []*depProbe
 	cancelled []*wallet.KeyPair // own fusion cancelled, nothing fused for them since
 	fresh     int
 	episodes  map[int]int // step of the history -> kind of episode
+	sporkSet  bool
+	sporkOrig types.Hash
+	sporkId   types.Hash
 }
 
 const (
 	epCancelExact = iota // distance 1: acknowledged momentum m, cancel received in m+1, block alone in m+2
 	epCancel             // distance 1..5
 	epFuse
+	epSpork // the accelerator spork gets enforced in the middle of the history
 )
 
-func newDepPlan(rng *rand.Rand, steps int) *depPlan {
+func newDepPlan(rng *rand.Rand, steps int, withSpork bool) *depPlan {
 	p := &depPlan{blocks: map[types.Hash]*depBlock{}, episodes: map[int]int{}}
 	kinds := []int{epCancelExact, epFuse, []int{epCancel, epFuse}[rng.Intn(2)]}
-	if rng.Intn(3) == 0 {
+	if withSpork {
+		kinds[2] = epSpork
+	} else if rng.Intn(3) == 0 {
 		kinds = append(kinds, epCancel)
 	}
 	// the first episode is always a cancellation, so that a later fuse episode finds an account below the cap
@@ -237,7 +242,6 @@ func (p *depPlan) validBlock(a *Node, rng *rand.Rand, out *Out, kind string, x *
 	d := &depBlock{kind: kind, hash: b.Hash, addr: x.Address, ack: ack.Identifier(), builtAt: fr.Height, changed: changed,
 		other: other.Height, fused: fp, availAck: availAck, availOther: availOther, incl: -1}
 	p.blocks[b.Hash] = d
-	p.order = append(p.order, d)
 	out.Count("history:dependent-block:" + kind)
 	out.Count(fmt.Sprintf("history:dependent-block:%s:distance-%d", kind, fr.Height-ack.Height))
 	return b
@@ -261,19 +265,21 @@ func (p *depPlan) probe(a *Node, rng *rand.Rand, out *Out, kind string, x *walle
 		tpl.FusedPlasma = fp
 	}
 	tpl.MomentumAcknowledged = ack.Identifier()
-	tx, err := a.Sv.GenerateFromTemplate(tpl, x.Signer)
+	_, err := a.Sv.GenerateFromTemplate(tpl, x.Signer)
 	refused := err != nil
 	out.Oracle(refused, "block-judged-in-state-of-acknowledged-momentum", M{"expected": "refused", "kind": kind, "address": x.Address.String(),
 		"acknowledged_height": U64(ack.Height), "frontier_height": U64(fr.Height), "ledger_would_take_it_from_height": U64(validFrom), "fused_plasma_of_block": U64(tpl.FusedPlasma),
 		"available_at_acknowledged_momentum": U64(availAck), "available_at_the_other_momentum": U64(availBetter)})
 	if !refused {
-		_ = tx
 		return
 	}
 	Sign(tpl, x)
 	p.probes = append(p.probes, &depProbe{kind: kind, b: tpl, at: fr.Height, validFrom: validFrom, producerErr: err.Error(),
 		fused: tpl.FusedPlasma, availAck: availAck, availAt: availBetter})
 	out.Count("history:dependent-probe:" + kind)
+	if why := err.Error(); len(why) < 80 {
+		out.Count("history:dependent-probe:" + kind + ":producer-said:" + why)
+	}
 	out.Count(fmt.Sprintf("history:dependent-probe:%s:distance-%d", kind, fr.Height-ack.Height))
 }
 
@@ -525,6 +531,128 @@ func (p *depPlan) episode(a *Node, rng *rand.Rand, out *Out, step int) {
 		p.cancelEpisode(a, rng, out, false)
 	case epFuse:
 		p.fuseEpisode(a, rng, out)
+	case epSpork:
+		p.sporkEpisode(a, rng, out)
+	}
+}
+
+// ---- spork: the set of methods (and their plasma) a send is checked against is the one of the acknowledged momentum
+
+// The implemented accelerator spork is identified by a constant; the tests of the repository point it at the spork
+// their history created (vm/embedded/tests: types.AcceleratorSpork.SporkId = id). Every node of this process sees the
+// same value; restored after the history.
+func (p *depPlan) restoreSpork() {
+	if p.sporkSet {
+		types.AcceleratorSpork.SporkId = p.sporkOrig
+		delete(types.ImplementedSporksMap, p.sporkId)
+		p.sporkSet = false
+	}
+}
+
+func sporkInfo(a *Node, id types.Hash) *definition.Spork {
+	return definition.GetSporkInfoById(a.Ch.GetFrontierAccountStore(types.SporkContract).Storage(), id)
+}
+
+// calls that the ledger takes only where the accelerator spork is enforced
+func sporkTemplate(rng *rand.Rand, x *wallet.KeyPair) *nom.AccountBlock {
+	if rng.Intn(2) == 0 {
+		// CollectReward costs EmbeddedSimple + EmbeddedWWithdraw before the spork and EmbeddedSimple with it
+		c := []types.Address{types.PillarContract, types.SentinelContract, types.StakeContract}[rng.Intn(3)]
+		return &nom.AccountBlock{BlockType: nom.BlockTypeUserSend, Address: x.Address, ToAddress: c, TokenStandard: types.ZnnTokenStandard, Amount: big.NewInt(0),
+			Data: definition.ABICommon.PackMethodPanic(definition.CollectRewardMethodName), FusedPlasma: uint64(constants.EmbeddedSimplePlasma) + uint64(rng.Intn(int(constants.EmbeddedWResponse)))}
+	}
+	// the accelerator contract has no CreateProject before the spork
+	return &nom.AccountBlock{BlockType: nom.BlockTypeUserSend, Address: x.Address, ToAddress: types.AcceleratorContract, TokenStandard: types.ZnnTokenStandard,
+		Amount: new(big.Int).Set(constants.ProjectCreationAmount), FusedPlasma: uint64(constants.EmbeddedSimplePlasma) + uint64(rng.Intn(50000)),
+		Data: definition.ABIAccelerator.PackMethodPanic(definition.CreateProjectMethodName, fmt.Sprintf("project %d", rng.Intn(1000)), "a project", "zenon.network",
+			big.NewInt(int64(1+rng.Intn(100))*g.Zexp), big.NewInt(int64(1+rng.Intn(1000))*g.Zexp))}
+}
+
+func (p *depPlan) sporkEpisode(a *Node, rng *rand.Rand, out *Out) {
+	if p.sporkSet {
+		return
+	}
+	create := safeSend(a, &nom.AccountBlock{Address: g.Spork.Address, ToAddress: types.SporkContract,
+		Data: definition.ABISpork.PackMethodPanic(definition.SporkCreateMethodName, "spork-accelerator", "the accelerator spork of this history")})
+	if create == nil {
+		out.Count("history:spork-episode-skipped(create refused)")
+		return
+	}
+	for k := 0; k < 4 && sporkInfo(a, create.Hash) == nil; k++ {
+		a.Momentum()
+	}
+	if sporkInfo(a, create.Hash) == nil {
+		out.Count("history:spork-episode-skipped(not created after 4 momentums)")
+		return
+	}
+	p.sporkOrig, p.sporkId, p.sporkSet = types.AcceleratorSpork.SporkId, create.Hash, true
+	types.AcceleratorSpork.SporkId = create.Hash
+	types.ImplementedSporksMap[create.Hash] = true
+	if safeSend(a, &nom.AccountBlock{Address: g.Spork.Address, ToAddress: types.SporkContract,
+		Data: definition.ABISpork.PackMethodPanic(definition.SporkActivateMethodName, create.Hash)}) == nil {
+		out.Count("history:spork-episode-skipped(activate refused)")
+		return
+	}
+	for k := 0; k < 4 && !sporkInfo(a, create.Hash).Activated; k++ {
+		a.Momentum()
+	}
+	info := sporkInfo(a, create.Hash)
+	if !info.Activated {
+		out.Count("history:spork-episode-skipped(not activated after 4 momentums)")
+		return
+	}
+	out.Count("history:spork-activated")
+	enf := info.EnforcementHeight
+	for FrontierOf(a.Ch).Height < enf {
+		bystanders(a, rng, out, types.ZeroAddress)
+		a.Momentum()
+	}
+	if FrontierOf(a.Ch).Height != enf {
+		out.Count("history:spork-episode-skipped(frontier beyond the enforcement height)")
+		return
+	}
+	for round := 0; round < 2; round++ {
+		fr := FrontierOf(a.Ch)
+		var x *wallet.KeyPair
+		for _, i := range rng.Perm(len(users)) {
+			u := users[i]
+			if settled(a, u.Address) && prevAck(a, u.Address) < enf && availAt(a, u.Address, momentumAt(a, enf-1).Identifier()) >= 400000 &&
+				availAt(a, u.Address, fr.Identifier()) >= 400000 && balance(a, u.Address, types.ZnnTokenStandard).Cmp(big.NewInt(3*g.Zexp)) > 0 {
+				x = u
+				break
+			}
+		}
+		if x == nil {
+			out.Count("history:spork-blocks-skipped(no settled account with plasma)")
+			break
+		}
+		// not valid: acknowledges a momentum in whose ledger the spork is not enforced yet
+		lo := maxU(prevAck(a, x.Address), 1)
+		if fr.Height > 5 && fr.Height-5 > lo {
+			lo = fr.Height - 5
+		}
+		if lo <= enf-1 {
+			p.probe(a, rng, out, "spork-enforced-between-ack-and-frontier", x, sporkTemplate(rng, x), momentumAt(a, lo+uint64(rng.Int63n(int64(enf-lo)))), fr.Identifier(), enf)
+		}
+		// valid: acknowledges a momentum that has it (the first one or a later one)
+		tpl := sporkTemplate(rng, x)
+		ack := momentumAt(a, enf+uint64(rng.Int63n(int64(fr.Height-enf+1))))
+		tpl.MomentumAcknowledged = ack.Identifier()
+		b, refusal := insertValid(a, tpl, nil)
+		out.Oracle(b != nil, "block-judged-in-state-of-acknowledged-momentum", M{"expected": "accepted", "kind": "spork-enforced:acknowledges-a-momentum-that-has-it",
+			"address": x.Address.String(), "acknowledged_height": U64(ack.Height), "frontier_height": U64(fr.Height), "spork_enforced_from_height": U64(enf),
+			"to": tpl.ToAddress.String(), "fused_plasma_of_block": U64(tpl.FusedPlasma), "producer_said": refusal})
+		if b != nil {
+			kind := "spork-enforced:acknowledges-a-momentum-that-has-it"
+			d := &depBlock{kind: kind, hash: b.Hash, addr: x.Address, ack: ack.Identifier(), builtAt: fr.Height, changed: enf, other: enf - 1, fused: b.FusedPlasma, incl: -1}
+			p.blocks[b.Hash] = d
+			out.Count("history:dependent-block:" + kind)
+			out.Count(fmt.Sprintf("history:dependent-block:%s:distance-%d", kind, fr.Height-ack.Height))
+		}
+		for k := 1 + rng.Intn(3); k > 0; k-- {
+			bystanders(a, rng, out, x.Address)
+			a.Momentum()
+		}
 	}
 }
 
@@ -565,6 +693,40 @@ func dependentSchedules(rng *rand.Rand, out *Out, chainD []*nom.DetailedMomentum
 	for _, p := range plan.probes {
 		probesAt[p.at] = append(probesAt[p.at], p)
 	}
+	// the restarted receiver: a restart costs as much as 10..20 momentums, so at most 3 per history - one before a momentum
+	// with a block that acknowledges m right after the momentum m+1 that changed the state, the others taken in turn from:
+	// momentums with other dependent blocks, probes gossiped right after the momentum that changed the state, other probes
+	restartAt := map[uint64]bool{}
+	{
+		classes := make([][]uint64, 4)
+		for i, l := range incl {
+			c := 1
+			for _, db := range l {
+				if int(db.changed) == i+1 && int(db.ack.Height) == i {
+					c = 0
+				}
+			}
+			classes[c] = append(classes[c], uint64(i+1))
+		}
+		for _, p := range plan.probes {
+			if p.validFrom == p.at {
+				classes[2] = append(classes[2], p.at)
+			} else {
+				classes[3] = append(classes[3], p.at)
+			}
+		}
+		for _, l := range classes {
+			sort.Slice(l, func(i, j int) bool { return l[i] < l[j] })
+			rng.Shuffle(len(l), func(i, j int) { l[i], l[j] = l[j], l[i] })
+		}
+		for k := 0; k < 8 && len(restartAt) < 3; k++ {
+			for _, l := range classes {
+				if k < len(l) && len(restartAt) < 3 {
+					restartAt[l[k]] = true
+				}
+			}
+		}
+	}
 	describeAll := func(i int) []M {
 		var l []M
 		for _, db := range incl[i] {
@@ -583,7 +745,7 @@ func dependentSchedules(rng *rand.Rand, out *Out, chainD []*nom.DetailedMomentum
 			pos := r.height()
 			fh := uint64(pos + 1)
 			if ps := probesAt[fh]; len(ps) > 0 {
-				if mode == 1 {
+				if mode == 1 && restartAt[fh] {
 					r.restart()
 					out.Count("replay:restart-right-before-dependent-probe")
 				}
@@ -622,8 +784,12 @@ func dependentSchedules(rng *rand.Rand, out *Out, chainD []*nom.DetailedMomentum
 				}
 			} else if len(incl[pos]) > 0 {
 				if mode == 1 {
-					r.restart()
-					out.Count("replay:restart-right-before-momentum-with-dependent-block")
+					if restartAt[fh] && len(probesAt[fh]) == 0 {
+						r.restart()
+					}
+					if restartAt[fh] {
+						out.Count("replay:restart-right-before-momentum-with-dependent-block")
+					}
 				} else {
 					for _, db := range incl[pos] {
 						out.Count("replay:dependent-block:delivered-to-running-receiver-one-momentum-per-call")
